@@ -54,7 +54,8 @@ class Contract:
     def __init__(self, target, *, params=None, returns="none", requires=(), ensures=(), raises=None,
                  modifies=(), loops=None, ghost=(), inline=(), props=(), abortable=False, ppi=(),
                  extern=False, trusted_reason=None, callables=None, locals=None, fresh_result=False,
-                 pure=False, self_type=None, ghost_params=None, escapes=(), notes="", allow_any_exception=False, varargs=False, uses=(), allocates=False, defaults=None, kwargs_param=None, prefer_ext=(), noreturn=False):
+                 pure=False, self_type=None, ghost_params=None, escapes=(), notes="", allow_any_exception=False, varargs=False, uses=(), allocates=False, defaults=None, kwargs_param=None, prefer_ext=(), noreturn=False, returns_self=False):
+        self.returns_self = returns_self   # the method returns its receiver (keeps the static/dynamic type of the argument)
         self.noreturn = noreturn
         self.prefer_ext = set(prefer_ext)   # 'Cls.method' names for which the ext:: call-site view is used instead of the real contract
         self.kwargs_param = kwargs_param
